@@ -50,6 +50,8 @@ pub struct ShareEntry {
     pub live: bool,
     pub seq: u64,
     pub bounce: Vec<u8>,
+    /// Content of a device-writable buffer when it was shared (only while `watch_writes` is on).
+    pub orig: Option<Vec<u8>>,
 }
 
 #[derive(Clone, Debug, PartialEq, Eq)]
@@ -72,6 +74,11 @@ pub struct HalState {
     /// One-shot: the next DMA allocation starts this many pages below a 4 GiB boundary of device
     /// address space (so that a region of more pages straddles the boundary).
     straddle: Option<u64>,
+    /// Opt-in oracle: a device-writable buffer must not be written by the driver between share
+    /// and unshare (the bouncing layer would hide such a write: the device's copy wins). With
+    /// this on, the buffer's content is remembered at share and compared at unshare
+    /// (fault `buffer-written-while-shared`).
+    pub watch_writes: bool,
     next_share_paddr: u64,
     /// If Some(k), the k-th (0-based) dma_alloc call of this execution fails.
     pub fail_dma_at: Option<usize>,
@@ -99,6 +106,7 @@ impl Default for HalState {
             seq: 0,
             next_dma_paddr: DMA_PADDR_BASE,
             straddle: None,
+            watch_writes: false,
             next_share_paddr: SHARE_PADDR_BASE,
             fail_dma_at: None,
             dma_calls: 0,
@@ -424,7 +432,13 @@ unsafe impl Hal for LabHal {
             h.seq += 1;
             crate::tracer::HAL_SEQ.with(|s| s.set(h.seq));
             let seq = h.seq;
-            h.shares.push(ShareEntry { paddr, vaddr, len, dir, ap: access_platform, live: true, seq, bounce });
+            let orig = if h.watch_writes && dir == Dir::FromDevice && len > 0 {
+                // SAFETY: the driver promises the buffer is valid for len bytes.
+                Some(unsafe { std::slice::from_raw_parts(vaddr as *const u8, len) }.to_vec())
+            } else {
+                None
+            };
+            h.shares.push(ShareEntry { paddr, vaddr, len, dir, ap: access_platform, live: true, seq, bounce, orig });
             h.log.push(HalEvent::Share { paddr, vaddr, len, dir, ap: access_platform });
             paddr
         })
@@ -459,6 +473,16 @@ unsafe impl Hal for LabHal {
                         h.fault("unshare-mismatch", d);
                         h.shares[i].live = false;
                     } else {
+                        if let Some(orig) = e.orig.as_ref() {
+                            // SAFETY: the driver promises the buffer is valid for len bytes.
+                            let now = unsafe { std::slice::from_raw_parts(vaddr as *const u8, len) };
+                            if now != &orig[..] {
+                                let at = now.iter().zip(orig.iter()).position(|(a, b)| a != b).unwrap_or(0);
+                                let d = format!("device-writable buffer {:#x}+{} was written by the driver while it was shared with the device (first difference at byte {}: {:#x} -> {:#x}); with in-place DMA the driver would have overwritten what the device wrote", vaddr, len, at, orig[at], now[at]);
+                                h.fault("buffer-written-while-shared", d);
+                            }
+                        }
+                        let e = &h.shares[i];
                         if dir != Dir::ToDevice && len > 0 {
                             // SAFETY: the driver promises the buffer is valid for writes.
                             unsafe { std::ptr::copy_nonoverlapping(e.bounce.as_ptr(), vaddr as *mut u8, len) };
